@@ -17,6 +17,8 @@ pub struct RelFlags {
     pub epochs: bool,
     pub max_entries: usize,
     pub neg_archs: bool,
+    /// an architecture restriction list may be written with no architecture in it ("foo []"); only the typed lossy documents ask for it
+    pub empty_archs: bool,
 }
 
 impl RelFlags {
@@ -30,10 +32,11 @@ impl RelFlags {
             epochs: rng.chance(1, 3),
             max_entries: if rng.chance(1, 60) { 20 + rng.below(80) } else { 1 + rng.below(4) },
             neg_archs: rng.chance(1, 2),
+            empty_archs: false,
         }
     }
     pub fn canonical() -> RelFlags {
-        RelFlags { free_ws: false, newlines: false, substvars: false, empty_entries: false, trailing_comma: false, epochs: true, max_entries: 3, neg_archs: false }
+        RelFlags { free_ws: false, newlines: false, substvars: false, empty_entries: false, trailing_comma: false, epochs: true, max_entries: 3, neg_archs: false, empty_archs: false }
     }
 }
 
@@ -87,7 +90,7 @@ pub fn relation(rng: &mut Rng, f: &RelFlags) -> String {
     if rng.chance(1, 5) {
         s.push_str(&ws(rng, f, " "));
         s.push('[');
-        let n = 1 + rng.below(3);
+        let n = if f.empty_archs && rng.chance(1, 3) { 0 } else { 1 + rng.below(3) };
         let neg = f.neg_archs && rng.chance(1, 2);
         for i in 0..n {
             if i > 0 {
